@@ -267,6 +267,36 @@ def _nesting_case(d, kind, L1, L2):
 
 CONDITIONS.append({"fn": "c08_block_nesting", "quick": 90, "thorough": 300, "sel_only": True})
 
+# ---- the shared corpus: generous limits of every kind leave the outcome of a render unchanged --------------------------
+from harness import corpus as _corpus  # noqa: E402
+
+
+class _GenerousEnv(_corpus.CorpusEnv):
+    loop_iteration_limit = 10 ** 6
+    output_stream_limit = 10 ** 7
+    local_namespace_limit = 10 ** 7
+    context_depth_limit = 30
+
+
+_C_PLAIN = _corpus.make_env()
+_C_LIMITED = _corpus.make_env(_GenerousEnv)
+
+
+def _corpus_check(w2, w1, leaf, d):
+    t0, t1 = _corpus.template(_C_PLAIN, w2, w1, leaf), _corpus.template(_C_LIMITED, w2, w1, leaf)
+    if t0 is None or t1 is None:
+        return None if t0 is t1 else {"parses": (t0 is not None, t1 is not None)}
+    a = _corpus.outcome(lambda: t0.render(**_corpus.data(d)))
+    b = _corpus.outcome(lambda: t1.render(**_corpus.data(d)))
+    return None if a == b else {"no limits": a, "generous limits": b}
+
+
+c08_corpus, _det = _corpus.mk_condition("c08_corpus", _corpus_check)
+DETAIL = globals().get("DETAIL", {})
+DETAIL["c08_corpus"] = _det
+CONDITIONS.append({"fn": "c08_corpus", "quick": 90, "thorough": 200, "sel_only": True,
+                   "bounds": _corpus.BOUNDS + "; loop 10**6, output 10**7, namespace 10**7 (real sys.getsizeof), depth 30"})
+
 ASSUMPTIONS = [
     "limits are class attributes of a harness Environment subclass, set per run; data sizes, recursion depth m and both limits are symbolic",
     "sys.getsizeof in liquid.context is replaced by a deterministic size function (str: 1 + len, other: 1)",
